@@ -19,7 +19,7 @@ KNOWN = os.path.join(ROOT, 'known_findings.json')
 DEFAULT_CFG = dict(
     quick=dict(qtimeout_ms=10000, max_paths=20000, case_wall_s=100, budget_s=150, step_limit=3000,
                path_wall_s=60, validate_per_case=2, nra_at_decide=True),
-    thorough=dict(qtimeout_ms=60000, max_paths=400000, case_wall_s=700, budget_s=900, step_limit=6000,
+    thorough=dict(max_cases=1500, qtimeout_ms=60000, max_paths=400000, case_wall_s=700, budget_s=900, step_limit=6000,
                   path_wall_s=300, validate_per_case=10 ** 9, nra_at_decide=True),
 )
 
@@ -306,6 +306,14 @@ def main(argv=None):
         cases = hm.cases(a.tier, seed)
         if a.only:
             cases = [c for c in cases if a.only in json.dumps(c, default=str)]
+        total_cases = len(cases)
+        mx = cfg.get('max_cases')
+        if mx and len(cases) > mx:
+            # more structural instances than the tier's budget: keep an evenly spaced, seed-shifted subsample (stated in the evidence)
+            step = len(cases) / float(mx)
+            off = (seed % 7) / 7.0
+            keep = sorted(set(min(len(cases) - 1, int((i + off) * step)) for i in range(mx)))
+            cases = [cases[i] for i in keep]
     except Exception:
         print('HARNESS-ERROR %s' % traceback.format_exc()[-2000:])
         return 2
@@ -405,7 +413,7 @@ def main(argv=None):
         samples=samples or [dict(note='no path explored')], obligations=agg['obligations'], discharged=agg['discharged'],
         unknown=agg['unknown'], unconfirmed_counterexamples=unconfirmed, duplicate_counterexamples_not_replayed=duplicates, float64_probe_inputs_replayed_ok=probes_ok, unconfirmed_samples=unconfirmed_samples,
         not_encodable_paths=len(notenc), not_encodable_samples=sorted(set(notenc))[:5],
-        path_outcomes=outcomes, infeasible_paths_pruned=agg['infeasible'], branch_feasibility_unknown_explored_both=agg['decide_unknown'], structural_cases=len(cases), cases_skipped_budget=skipped,
+        path_outcomes=outcomes, structural_cases_enumerated=total_cases, infeasible_paths_pruned=agg['infeasible'], branch_feasibility_unknown_explored_both=agg['decide_unknown'], structural_cases=len(cases), cases_skipped_budget=skipped,
         cases_truncated=truncated, validation_mismatch=mism, validation_skipped=vskip,
         solver=dict(engine='z3 %s (python API)' % core.z3.get_version_string(), queries=agg['queries'], linear_abstraction_unsat=agg['lin_unsat'],
                     nra_queries=agg['nra_queries'], solver_s=round(agg['solver_s'], 2), per_query_timeout_ms=cfg['qtimeout_ms']),
